@@ -9,6 +9,7 @@ def run(ctx, rep):
     operators.rule_bool_is_not_a_number(ctx, rep, "C06-R4")
     operators.rule_unordered_comparisons(ctx, rep, "C06-R6")
     operators.rule_host_operator_pitfalls(ctx, rep, "C06-R7")
+    operators.rule_host_truthiness(ctx, rep, "C06-R8")
     rep.undecided += [
         "the operator/conversion value table (about 80 x 80 x 45 cells against a reference): a runtime differential, outside static analysis",
         "int/float representation independence of results (C06-R5 not built)",
